@@ -270,3 +270,82 @@ theorem add_chain_combine32 (x c1 c2 : W64) :
     omega
 
 end MirVerif
+
+namespace MirVerif
+
+/-! ## Two extensions in a row (copy_prop, combine_exts): `[u]ext<w2> b,a; [u]ext<w> c,b`.
+The tests on the widths and signs and the opcode kept are pinned texts (`snippet ext merge guards`,
+`func get_ext_params`); here is what those tests must guarantee. -/
+
+/-- bits of an extension: below the width the operand's bits, above it the sign bit (signed) or 0 -/
+theorem getLsbD_macroExt (w : Nat) (s : Bool) (x : W64) (i : Nat) (hw : 0 < w) (_h64 : w ≤ 64) :
+    (macroExt w s x).getLsbD i =
+      (decide (i < 64) && if i < w then x.getLsbD i else (s && x.getLsbD (w - 1))) := by
+  unfold macroExt
+  have e3 : w - 1 < w := by omega
+  cases s <;> by_cases a : i < w <;>
+    simp [BitVec.getLsbD_signExtend, BitVec.getLsbD_setWidth, BitVec.msb_eq_getLsbD_last, a, e3]
+  all_goals first | done | (intro h; omega)
+
+/-- `w <= w2`: the outer extension applied to the inner one's operand gives the same value -/
+theorem ext_merge_outer_narrower (w w2 : Nat) (s s2 : Bool) (x : W64) (h0 : 0 < w) (hw : w ≤ w2) (h2 : w2 ≤ 64) :
+    macroExt w s (macroExt w2 s2 x) = macroExt w s x := by
+  apply BitVec.eq_of_getLsbD_eq
+  intro i hi
+  have e1 : w - 1 < w2 := by omega
+  have e2 : w - 1 < 64 := by omega
+  rw [getLsbD_macroExt _ _ _ _ h0 (by omega), getLsbD_macroExt _ _ _ _ h0 (by omega),
+      getLsbD_macroExt _ _ _ _ (by omega) h2, getLsbD_macroExt _ _ _ _ (by omega) h2]
+  by_cases a : i < w
+  · have b : i < w2 := by omega
+    simp [a, b, hi, e1]
+  · simp [a, hi, e1, e2]
+
+/-- `w2 < w && (sign_p || !sign2_p)`: the inner extension alone already is the result -/
+theorem ext_merge_outer_wider (w w2 : Nat) (s s2 : Bool) (x : W64) (hw : w2 < w) (h2 : w ≤ 64) (h0 : 0 < w2)
+    (hs : s = true ∨ s2 = false) :
+    macroExt w s (macroExt w2 s2 x) = macroExt w2 s2 x := by
+  apply BitVec.eq_of_getLsbD_eq
+  intro i hi
+  have e1 : ¬ (w - 1 < w2) := by omega
+  have e2 : w - 1 < 64 := by omega
+  rw [getLsbD_macroExt _ _ _ _ (by omega) h2, getLsbD_macroExt _ _ _ _ h0 (by omega),
+      getLsbD_macroExt _ _ _ _ h0 (by omega)]
+  by_cases a : i < w <;> by_cases b : i < w2
+  · simp [a, b, hi]
+  · simp [a, b, hi]
+  · exfalso; omega
+  · rcases hs with rfl | rfl <;> simp [a, b, hi, e1, e2]
+
+/-- the excluded pair (signed narrow inner, unsigned wider outer) really must be excluded -/
+theorem ext_merge_excluded_pair_differs :
+    macroExt 16 false (macroExt 8 true 0x80) ≠ macroExt 8 true 0x80 ∧
+    macroExt 32 false (macroExt 16 true 0x8000) ≠ macroExt 16 true 0x8000 := by decide
+
+/-- the same for the documented semantics of the six opcodes -/
+theorem ext_merge_doc (x : W64) :
+    (∀ w ∈ [8, 16, 32], ∀ w2 ∈ [8, 16, 32], ∀ s s2 : Bool, w ≤ w2 →
+        docExt w s (docExt w2 s2 x) = docExt w s x) ∧
+    (∀ w ∈ [8, 16, 32], ∀ w2 ∈ [8, 16, 32], ∀ s s2 : Bool, w2 < w → (s = true ∨ s2 = false) →
+        docExt w s (docExt w2 s2 x) = docExt w2 s2 x) := by
+  have d : ∀ k ∈ [8, 16, 32], ∀ (s : Bool) (y : W64), docExt k s y = macroExt k s y := by
+    intro k hk s y
+    simp only [List.mem_cons, List.mem_nil_iff, or_false] at hk
+    rcases hk with rfl | rfl | rfl <;> cases s <;>
+      first | exact (ext8 y).symm | exact (ext16 y).symm | exact (ext32 y).symm
+            | exact (uext8 y).symm | exact (uext16 y).symm | exact (uext32 y).symm
+  constructor
+  · intro w hw w2 hw2 s s2 hle
+    rw [d w hw, d w2 hw2, d w hw]
+    have : 0 < w ∧ w2 ≤ 64 := by
+      simp only [List.mem_cons, List.mem_nil_iff, or_false] at hw hw2
+      omega
+    exact ext_merge_outer_narrower w w2 s s2 x this.1 hle this.2
+  · intro w hw w2 hw2 s s2 hlt hs
+    rw [d w hw, d w2 hw2]
+    have : 0 < w2 ∧ w ≤ 64 := by
+      simp only [List.mem_cons, List.mem_nil_iff, or_false] at hw hw2
+      omega
+    exact ext_merge_outer_wider w w2 s s2 x hlt this.2 this.1 hs
+
+end MirVerif
